@@ -18,6 +18,7 @@ pub struct Out {
     pub lines: u64,
     pub discarded: u64,
     pub last: Option<(String, String)>,
+    pub facts: Option<std::io::BufWriter<std::fs::File>>,
 }
 
 impl Out {
@@ -25,7 +26,7 @@ impl Out {
         std::fs::create_dir_all(dir).unwrap();
         let ops = std::io::BufWriter::new(std::fs::File::create(format!("{}/{}.ops", dir, stream)).unwrap());
         let imp = std::io::BufWriter::new(std::fs::File::create(format!("{}/{}.impl", dir, stream)).unwrap());
-        Out { ops, imp, lines: 0, discarded: 0, last: None }
+        Out { ops, imp, lines: 0, discarded: 0, last: None, facts: Some(std::io::BufWriter::new(std::fs::File::create(format!("{}/{}.facts", dir, stream)).unwrap())) }
     }
     pub fn emit(&mut self, op: &str, res: &str) {
         debug_assert!(!op.contains('\n') && !res.contains('\n'));
@@ -34,13 +35,20 @@ impl Out {
         self.lines += 1;
         self.last = Some((op.to_string(), res.to_string()));
     }
+    /// record the verdict of a harness-side oracle about the operation emitted last
+    pub fn fact(&mut self, prop: &str, check: &str, ok: bool, detail: &str) {
+        if let Some(f) = self.facts.as_mut() {
+            let d = detail.replace('\\', "/").replace('"', "'");
+            writeln!(f, "{{\"prop\":\"{}\",\"check\":\"{}\",\"ok\":{},\"line\":{},\"detail\":\"{}\"}}", prop, check, ok, self.lines.saturating_sub(1), d).unwrap();
+        }
+    }
     pub fn emit2(&mut self, l: (String, String)) {
         self.emit(&l.0, &l.1)
     }
     /// an output that only remembers the last line (used to re-route a line)
     pub fn null() -> Self {
         let f = || std::io::BufWriter::new(std::fs::File::create("/dev/null").unwrap());
-        Out { ops: f(), imp: f(), lines: 0, discarded: 0, last: None }
+        Out { ops: f(), imp: f(), lines: 0, discarded: 0, last: None, facts: None }
     }
     pub fn take_last(&mut self) -> (String, String) {
         self.last.take().unwrap_or_default()
@@ -48,6 +56,9 @@ impl Out {
     pub fn finish(mut self) {
         self.ops.flush().unwrap();
         self.imp.flush().unwrap();
+        if let Some(f) = self.facts.as_mut() {
+            f.flush().unwrap();
+        }
     }
 }
 
@@ -76,9 +87,9 @@ fn main() {
                 "confirm" => smallstreams::confirm(&mut r, count, thorough, &mut out),
                 "apply" | "seal" | "chain" => {
                     let em = match stream {
-                        "apply" => statestream::Emphasis { mutate: 300, pool_ops: 6, stake_ops: 8, blocks: 2, chain_ops: false },
-                        "seal" => statestream::Emphasis { mutate: 80, pool_ops: 30, stake_ops: 2, blocks: 4, chain_ops: false },
-                        _ => statestream::Emphasis { mutate: 100, pool_ops: 10, stake_ops: 6, blocks: 4, chain_ops: true },
+                        "apply" => statestream::Emphasis { mutate: 300, pool_ops: 6, stake_ops: 8, mint_ops: 8, blocks: 2, chain_ops: false },
+                        "seal" => statestream::Emphasis { mutate: 80, pool_ops: 30, stake_ops: 2, mint_ops: 2, blocks: 4, chain_ops: false },
+                        _ => statestream::Emphasis { mutate: 100, pool_ops: 10, stake_ops: 6, mint_ops: 4, blocks: 4, chain_ops: true },
                     };
                     let stats = statestream::run(&mut r, count, &em, &mut out);
                     let js: Vec<String> = stats.iter().map(|(k, v)| format!("\"{}\":{}", k, v)).collect();
